@@ -180,8 +180,9 @@ def isCharLiteral (s : Str) : Bool :=
 
 /-! ## `Token::isCChar` / `isCMultiChar` (lib/token.h) via `replaceEscapeSequences` (lib/utils.cpp)
 
-Only `\n \r \t`, `\x` with at most two hex digits and octal escapes that START WITH `0` are folded into one character;
-any other backslash pair yields its second character — so `'\200'` counts as three characters. -/
+`\n \r \t`, `\x` with at most two hex digits and octal escapes of up to three digits (any first digit since 3fa1f26; before
+that commit only those starting with `0`, so `'\200'` counted as three characters) are folded into one character; any
+other backslash pair yields its second character. -/
 
 def hexNib (c : Char) : Nat := if CharLit.isDigit c then c.toNat - 48 else if 97 ≤ c.toNat then c.toNat - 87 else c.toNat - 55
 
@@ -203,15 +204,15 @@ def replaceEscapeSequencesGo : Nat → Str → Str
         else Char.ofNat 0 :: replaceEscapeSequencesGo fuel r
       | [h1] => if isXDigit h1 then [Char.ofNat (hexNib h1)] else Char.ofNat 0 :: replaceEscapeSequencesGo fuel r
       | [] => [Char.ofNat 0]
-    else if e == '0' then
+    else if isOctDigit e then                       -- since 3fa1f26 every octal digit starts an escape (before: only '0')
       match r with
       | o1 :: o2 :: r' =>
         if isOctDigit o1 then
-          if isOctDigit o2 then Char.ofNat ((hexNib o1 * 8 + hexNib o2) % 256) :: replaceEscapeSequencesGo fuel r'
-          else Char.ofNat (hexNib o1) :: replaceEscapeSequencesGo fuel (o2 :: r')
-        else Char.ofNat 0 :: replaceEscapeSequencesGo fuel r
-      | [o1] => if isOctDigit o1 then [Char.ofNat (hexNib o1)] else Char.ofNat 0 :: replaceEscapeSequencesGo fuel r
-      | [] => [Char.ofNat 0]
+          if isOctDigit o2 then Char.ofNat (((hexNib e * 8 + hexNib o1) * 8 + hexNib o2) % 256) :: replaceEscapeSequencesGo fuel r'
+          else Char.ofNat (hexNib e * 8 + hexNib o1) :: replaceEscapeSequencesGo fuel (o2 :: r')
+        else Char.ofNat (hexNib e) :: replaceEscapeSequencesGo fuel r
+      | [o1] => if isOctDigit o1 then [Char.ofNat (hexNib e * 8 + hexNib o1)] else Char.ofNat (hexNib e) :: replaceEscapeSequencesGo fuel r
+      | [] => [Char.ofNat (hexNib e)]
     else e :: replaceEscapeSequencesGo fuel r
 
 def replaceEscapeSequences (s : Str) : Str := replaceEscapeSequencesGo (s.length + 1) s
